@@ -158,6 +158,18 @@ let show_comp = function CRoot -> "R" | CCur -> "C" | CParent -> "P" | CNormal s
 let show_comps p = String.concat "," (List.map show_comp (pcomps p))
 let show_pp (p : pkgpath) = show_comps p.pp_short ^ "|" ^ show_comps p.pp_full
 
+(* ---- metadata / pkgdb ---- *)
+let rec midx e l i = match l with [] -> -1 | x :: r -> if x = e then i else midx e r (i + 1)
+let ovl = function None -> "N" | Some v -> "L" ^ string_of_int (List.length v) ^ ":" ^ String.concat "," (List.map arg_of_str v)
+let osx = function None -> "N" | Some s -> "S" ^ arg_of_str s
+let oix = function None -> "N" | Some z -> "I" ^ string_of_z z
+let dump_meta (m : metadata) =
+  String.concat ";" [ovl m.m_build_info; ovl m.m_build_version; "S" ^ arg_of_str m.m_comment; "S" ^ arg_of_str m.m_contents;
+    osx m.m_deinstall; "S" ^ arg_of_str m.m_desc; osx m.m_display; osx m.m_install; ovl m.m_installed_info;
+    ovl m.m_mtree_dirs; ovl m.m_preserve; ovl m.m_required_by; oix m.m_size_all; oix m.m_size_pkg]
+let split1 (a : string) = match String.index_opt a ':' with
+  | Some i -> (String.sub a 0 i, String.sub a (i + 1) (String.length a - i - 1)) | None -> (a, "")
+
 let run (op : string) (args : string list) : string =
   match op, args with
   | "dewey.new", [p] ->
@@ -288,6 +300,35 @@ let run (op : string) (args : string list) : string =
              ^ "|" ^ String.concat ";" (List.map show_opt_s r.sr_scalars)
              ^ "|" ^ String.concat ";" (List.map arg_of_str r.sr_scan_depends)
              ^ "|" ^ String.concat ";" (List.map arg_of_str r.sr_multi_version)) rs))
+  | "md.table", [i] ->
+      let e = List.nth all_mentries (int_of_string i) in
+      let name = to_filename e in
+      arg_of_str name ^ "|" ^ (match from_filename name with Some e2 -> string_of_int (midx e2 all_mentries 0) | None -> "N")
+  | "md.from", [s] -> (match from_filename (str_of_arg s) with Some e -> string_of_int (midx e all_mentries 0) | None -> "N")
+  | "md.ops", ops ->
+      let rec go m k = function
+        | [] -> "OK|valid=" ^ bool_obs (meta_is_valid m) ^ "|" ^ dump_meta m
+        | a :: r ->
+            let (i, t) = split1 a in
+            (match read_metadata m (List.nth all_mentries (int_of_string i)) (str_of_arg (if t = "" then "-" else t)) with
+             | Some m' -> go m' (k + 1) r | None -> "E:" ^ string_of_int k) in
+      go meta_empty 0 ops
+  | "db.iter", ents ->
+      let dirent_of a =
+        match String.split_on_char ':' a with
+        | "f" :: name :: _ -> { de_name = str_of_arg name; de_is_dir = false; de_files = [] }
+        | "d" :: name :: rest ->
+            let files = match rest with f :: _ when f <> "" -> List.map str_of_arg (String.split_on_char ',' f) | _ -> [] in
+            { de_name = str_of_arg name; de_is_dir = true; de_files = files }
+        | _ -> failwith "dirent" in
+      let pkgs = db_iter (List.map dirent_of ents) in
+      (* content of +COMMENT as written by the harness *)
+      let comment = " content of +COMMENT \n" in
+      let enc_s s = String.concat " " (List.map string_of_int (List.init (String.length s) (fun i -> Char.code s.[i]))) in
+      let items = List.map (function
+        | Some p -> arg_of_str p.pk_name ^ "|" ^ arg_of_str p.pk_base ^ "|" ^ arg_of_str p.pk_version ^ "|" ^ enc_s comment
+        | None -> "ERR") pkgs in
+      "OK:" ^ String.concat "#" (List.sort compare items)
   | _ -> "UNKNOWN-OP"
 
 let () =
@@ -299,6 +340,7 @@ let () =
        if line <> "" then begin
          match String.split_on_char '\t' line with
          | id :: op :: args ->
+             let args = List.filter (fun a -> a <> "") args in
              let obs = try run op args with e -> "DRIVER-EXN:" ^ Printexc.to_string e in
              Buffer.add_string out id; Buffer.add_char out '\t';
              Buffer.add_string out obs; Buffer.add_char out '\n'
